@@ -313,7 +313,7 @@ class CallMixin:
         name = self.short_name(fi) if fi.qualname in self.prog.functions else None
         if name:
             for n in ast.walk(fi.node):
-                if isinstance(n, (ast.If, ast.For, ast.While, ast.Try, ast.Assign)):
+                if isinstance(n, (ast.If, ast.For, ast.While, ast.Try, ast.Assign, ast.AnnAssign)):
                     tn = type(n).__name__
                     counts[tn] = counts.get(tn, 0)
                     self.region_index[id(n)] = (name, tn, counts[tn])
